@@ -412,13 +412,11 @@ def allAuthInsecure (ns' : List Rec) (vn : List (GKey × GV)) : Bool :=
   !vn.isEmpty && vn.all fun kv =>
     (groupRecs ns' kv.1).all (·.proof == .insecure) && (groupSigs ns' kv.1).all (·.proof == .insecure)
 
-/-- the authority records handed to `verify_nsec` / `verify_nsec3`.  An NSEC is taken only if its own RRset came out
-Secure (fix 63406ab); an NSEC3 still whenever *some* authority record of the same owner name is Secure (the code as
-it is: for hashed owner names only the NSEC3 RRset and its RRSIGs live there). -/
+/-- the authority records handed to `verify_nsec` / `verify_nsec3`: an NSEC / NSEC3 record is taken only if its own RRset
+came out Secure (fixes 63406ab for NSEC, cc13292 for NSEC3; before, any Secure authority record of the same owner name
+sufficed) -/
 def selectDenial (ns' : List Rec) (t : Nat) : List (Rec × Nat) :=
-  ns'.zipIdx.filter fun ri => ri.1.rtype == t &&
-    (if t == tNSEC then ri.1.proof == .secure
-     else ns'.any fun x => x.name == ri.1.name && x.proof == .secure)
+  ns'.zipIdx.filter fun ri => ri.1.rtype == t && ri.1.proof == .secure
 
 /-- a record (not just an RRSIG) of the queried type, or a CNAME, at the query name -/
 def answersTheQuestion (q : Query) (an : List Rec) : Bool :=
